@@ -238,45 +238,42 @@ class Sim(object):
             c._outputs,
         )
 
+    # attributes of the conductor that are never part of a snapshot (immutable / unpicklable helpers)
+    _SKIP_ATTRS = ("spec", "catalog", "spec_module", "composer")
+
     def snapshot(self):
-        if Sim.SNAP_GRAPH:
-            return pickle.dumps((self._parts(), self.h, self.budget, self.ghost, self.c._graph), protocol=4)
-        return pickle.dumps((self._parts(), self.h, self.budget, self.ghost), protocol=4)
+        """Pickle of everything the live conductor holds in memory (also attributes this harness does not know
+        about), so that a live lineage really behaves like a never-persisted conductor. The composed graph is
+        shared between snapshots unless SNAP_GRAPH is set."""
+        c = self.c
+        ws = c._workflow_state
+        attrs = {k: v for k, v in c.__dict__.items() if k not in self._SKIP_ATTRS}
+        if not Sim.SNAP_GRAPH:
+            attrs.pop("_graph", None)
+        back = None
+        if ws is not None:
+            back = ws.conductor
+            ws.conductor = None  # back reference is re-established on restore
+        try:
+            return pickle.dumps((attrs, self.h, self.budget, self.ghost), protocol=4)
+        finally:
+            if ws is not None:
+                ws.conductor = back
 
     @classmethod
     def restore(cls, scn, snap):
-        loaded = pickle.loads(snap)
-        graph = scn.graph
-        if len(loaded) == 5:
-            parts, h, budget, ghost, graph = loaded
-        else:
-            parts, h, budget, ghost = loaded
+        attrs, h, budget, ghost = pickle.loads(snap)
         sim = cls.__new__(cls)
         sim.scn = scn
         sim.h = h
         sim.budget = budget
         sim.ghost = ghost
         c = conducting.WorkflowConductor(scn.spec, inputs=copy.deepcopy(scn.inputs))
-        if parts is None:
-            c._graph = graph
-        else:
-            ws = conducting.WorkflowState()
-            (
-                ws.contexts,
-                ws.routes,
-                ws.sequence,
-                ws.staged,
-                ws.status,
-                ws.tasks,
-                ws.reruns,
-                errors,
-                log,
-                outputs,
-            ) = parts
-            c.restore(graph, log, errors, ws, copy.deepcopy(scn.inputs), outputs, None)
-            # restore() replaces falsy containers; keep the exact objects.
-            c._errors = errors
-            c._log = log
+        c.__dict__.update(attrs)
+        if "_graph" not in attrs:
+            c._graph = scn.graph
+        if c._workflow_state is not None:
+            c._workflow_state.conductor = c
         sim.c = c
         return sim
 
